@@ -95,6 +95,9 @@ def test_ser(case):
         indep = big_classic(nodes)
     except ValueError:
         return False, ["too big"]
+    if len(indep) > 3_000_000:
+        # the shared 1 MiB atoms of a DAG can expand to tens of MB; the walkers of this harness stop at 4 MB
+        return False, ["too big"]
     # the Rust classic serializer's bytes for this tree: decode the independent encoding with the Rust decoder, re-serialize
     e = rs("deser_legacy", indep)
     if e[0] != "Ok":
